@@ -42,6 +42,7 @@ fn expr_text(e: &J) -> String {
     }
     let v = e["v"].as_str().unwrap();
     match e["f"].as_str().unwrap() {
+        f @ ("in" | "nin") => format!("?{v} {} ({})", if f == "in" { "IN" } else { "NOT IN" }, e["cs"].as_array().unwrap().iter().map(|c| term_text(c.as_i64().unwrap())).collect::<Vec<_>>().join(", ")),
         "bound" => format!("BOUND(?{v})"), "nbound" => format!("!BOUND(?{v})"),
         f => format!("?{v} {} {}", match f { "eq" => "=", "ne" => "!=", "lt" => "<", _ => ">" }, term_text(e["c"].as_i64().unwrap())),
     }
@@ -53,6 +54,8 @@ fn group_text(g: &J) -> String {
             "tp" => s += &format!("{} {} {} . ", t_text(&e["s"]), t_text(&e["p"]), t_text(&e["o"])),
             "filter" => s += &format!("FILTER({}) ", expr_text(&e["e"])),
             "opt" => s += &format!("OPTIONAL {} ", group_text(&e["g"])),
+            "minus" => s += &format!("MINUS {} ", group_text(&e["g"])),
+            "values" => s += &format!("VALUES ?{} {{ {} }} ", e["v"].as_str().unwrap(), e["cs"].as_array().unwrap().iter().map(|c| term_text(c.as_i64().unwrap())).collect::<Vec<_>>().join(" ")),
             _ => s += &format!("{} UNION {} ", group_text(&e["a"]), group_text(&e["b"])),
         }
     }
@@ -66,7 +69,8 @@ fn query_text(q: &J) -> String {
     }
     let head = if q["count"].as_bool().unwrap() { "SELECT (COUNT(*) AS ?c)".to_string() } else { format!("SELECT {}{}", if q["distinct"].as_bool().unwrap() { "DISTINCT " } else { "" }, sel.join(" ")) };
     let lim = q["limit"].as_i64().unwrap();
-    format!("{head} WHERE {}{order}{}", group_text(&q["where"]), if lim >= 0 { format!(" LIMIT {lim}") } else { String::new() })
+    let off = q.get("offset").and_then(|x| x.as_i64()).map(|o| format!(" OFFSET {o}")).unwrap_or_default();
+    format!("{head} WHERE {}{order}{}{off}", group_text(&q["where"]), if lim >= 0 { format!(" LIMIT {lim}") } else { String::new() })
 }
 
 struct Gen<'a> { rng: &'a mut StdRng, ns: i64, vars: Vec<(String, u8)> } // var kinds: 0 iri, 1 string, 2 int, 3 any
@@ -95,8 +99,14 @@ impl Gen<'_> {
         let cands: Vec<(String, u8)> = self.vars.iter().filter(|(_, k)| *k < 3).cloned().collect();
         if cands.is_empty() { return None; }
         let (v, k) = cands[self.rng.random_range(0..cands.len())].clone();
-        let e = match (k, self.rng.random_range(0..6)) {
+        let e = match (k, self.rng.random_range(0..7)) {
             (_, 0) => json!({"f": "bound", "v": v}), (_, 1) => json!({"f": "nbound", "v": v}),
+            (k, 6) => {
+                let pool: Vec<i64> = match k { 0 => (1..=self.ns).collect(), 1 => vec![21, 22], _ => vec![31, 32, 33] };
+                let n = self.rng.random_range(1..=2usize);
+                let cs: Vec<i64> = (0..n).map(|_| pool[self.rng.random_range(0..pool.len())]).collect();
+                json!({"f": if self.rng.random_bool(0.7) { "in" } else { "nin" }, "v": v, "cs": cs})
+            }
             (0, _) => json!({"f": if self.rng.random_bool(0.5) { "eq" } else { "ne" }, "v": v, "c": self.rng.random_range(1..=self.ns)}),
             (1, _) => json!({"f": if self.rng.random_bool(0.5) { "eq" } else { "ne" }, "v": v, "c": self.rng.random_range(21..=22)}),
             (_, x) => { let f = ["eq", "ne", "lt", "gt"][x % 4]; json!({"f": f, "v": v, "c": self.rng.random_range(31..=33)}) }
@@ -130,6 +140,24 @@ impl Gen<'_> {
                         g.push(json!({"k": "union", "a": a, "b": b}));
                     } else {
                         let a = self.group(depth + 1); let b = self.group(depth + 1); g.push(json!({"k": "union", "a": a, "b": b}));
+                    }
+                }
+                3 if self.rng.random_bool(0.5) => {
+                    // MINUS over a pattern that (usually) shares a variable with the group
+                    // variables that occur only inside the MINUS group are not offered to SELECT / FILTER / ORDER BY
+                    let n0 = self.vars.len();
+                    let mg = vec![self.tp()];
+                    self.vars.truncate(n0);
+                    g.push(json!({"k": "minus", "g": mg}));
+                }
+                4 if self.rng.random_bool(0.4) => {
+                    let cands: Vec<(String, u8)> = self.vars.iter().filter(|(_, k)| *k < 3).cloned().collect();
+                    if !cands.is_empty() {
+                        let (v, k) = cands[self.rng.random_range(0..cands.len())].clone();
+                        let pool: Vec<i64> = match k { 0 => (1..=self.ns).collect(), 1 => vec![21, 22], _ => vec![31, 32, 33] };
+                        let mut cs: Vec<i64> = vec![];
+                        for c in pool { if self.rng.random_bool(0.6) { cs.push(c); } }
+                        if !cs.is_empty() { g.push(json!({"k": "values", "v": v, "cs": cs})); }
                     }
                 }
                 _ => {}
@@ -170,6 +198,7 @@ fn gen_query(rng: &mut StdRng, ns: i64) -> J {
         if !cands.is_empty() {
             let v = cands[g.rng.random_range(0..cands.len())].clone();
             q["order"] = json!({"v": v, "desc": g.rng.random_bool(0.5)});
+            if g.rng.random_bool(0.35) { q["offset"] = json!(g.rng.random_range(0..=3)); }
         }
     }
     q
